@@ -71,7 +71,8 @@ func Gen(t *tape.Tape, base string, o Opts) *Layout {
 	if l.HasMod {
 		l.Sents[l.Top+"/go.mod"] = fmt.Sprintf("module example.com/mod%d\n\ngo 1.20\n", t.Draw(3))
 		if o.NestedMod && t.Bool(1, 3) {
-			l.Sents[l.Top+"/inner/go.mod"] = "module example.com/inner\n"
+			// a nested sentinel only has to exist for source evaluation: also empty, or starting with a comment
+			l.Sents[l.Top+"/inner/go.mod"] = []string{"module example.com/inner\n", "", "// nested module\nmodule example.com/inner\n", "module example.com/inner\n"}[t.Draw(4)]
 		}
 	}
 	n := t.Range(2, o.MaxFiles)
